@@ -7,6 +7,21 @@
    and the proof  QR_ops : NumOps_R Q R QR QOps ROps  it yields
         map-Q2R (f QOps args) = f ROps (map-Q2R args).                       *)
 
+(* Notes on Paramcoq (coq-paramcoq for 8.16, Debian package):
+   - [Parametricity Recursive f.] once per top-level function is enough and
+     safe to repeat: constants already translated (registered as
+     "translation") are re-used, nothing clashes.
+   - functions defined in a Section with a section variable [eps] simply take [eps]
+     after [o]; [let fix] (hist_counts), records (sst, ctx), local
+     inductives (sev, ivspec) and all List/Nat library functions translate.
+   - higher-order arguments (gt : option ctx -> option ctx -> F -> F -> F)
+     are avoided by translating wrappers with the argument fixed.
+   - fixpoints whose body re-uses the structural argument (skip_before)
+     produce an unfolding obligation; the obligation proof is NOT opened
+     interactively in this build ("Parametricity Done" never applies), so
+     it has to be discharged by the tactic registered with
+     [Parametricity Tactic] (see below). *)
+
 From Coq Require Import List Bool Arith ZArith QArith Qreals Reals Lra Lia.
 Import ListNotations.
 From Param Require Import Param.
@@ -175,15 +190,6 @@ Section Converters.
   Global Instance RF_res : RelFun (res_R A B AR) (rmap f).
   Proof. split; [apply res_R_map | apply res_R_of_map]. Qed.
 
-  Lemma rmap_match (x : res A) (y : res B) :
-    rmap f x = y <->
-    match x, y with
-    | Ok a, Ok b => f a = b
-    | Err e, Err e' => e = e'
-    | _, _ => False
-    end.
-  Proof. destruct x, y; simpl; split; intros H; try congruence; try contradiction; discriminate. Qed.
-
   Lemma ctx_R_map (x : @ctx A) (y : @ctx B) : ctx_R A B AR x y -> ctxmap f x = y.
   Proof.
     intros [p p' Hp c c' Hc n n' Hn]. unfold ctxmap; simpl.
@@ -226,7 +232,789 @@ Section ConvertersIv.
   Proof. split; [apply ivspec_R_map | apply ivspec_R_of_map]. Qed.
 End ConvertersIv.
 
+(* [rmap f x = y] says: both [Ok] with [f a = b], or the same [Err] *)
+Lemma rmap_match {A B : Type} (f : A -> B) (x : res A) (y : res B) :
+  rmap f x = y <->
+  match x, y with
+  | Ok a, Ok b => f a = b
+  | Err e, Err e' => e = e'
+  | _, _ => False
+  end.
+Proof. destruct x, y; simpl; split; intros H; try congruence; try contradiction; discriminate. Qed.
+
 (* explicit statements of the converters at QR (requested interface) *)
 Lemma list_R_QR_iff (l1 : list Q) (l2 : list R) :
   (list_R Q R QR l1 l2 -> map Q2R l1 = l2) * (map Q2R l1 = l2 -> list_R Q R QR l1 l2).
 Proof. split; [apply list_R_map | apply list_R_of_map_eq]; exact _. Qed.
+Lemma prod_R_QR_eq (p : Q * Q) (q : R * R) :
+  prod_R Q R QR Q R QR p q -> (Q2R (fst p), Q2R (snd p)) = q.
+Proof. apply (prod_R_map QR Q2R QR Q2R). Qed.
+Lemma option_R_QR_eq (x : option Q) (y : option R) :
+  option_R Q R QR x y -> option_map Q2R x = y.
+Proof. apply (option_R_map QR Q2R). Qed.
+
+(* ------------------------------------------------------------------ *)
+(* 3. Transfer theorems                                                *)
+
+Lemma transfer {A B : Type} (AR : A -> B -> Type) (f : A -> B) {H : RelFun AR f}
+      (a : A) (b : B) : AR a b -> f a = b.
+Proof. apply r2f. Qed.
+
+(* shapes of the "map Q2R" functions *)
+Notation qL := (map Q2R).                                  (* list F *)
+Notation q2 := (pmap Q2R Q2R).                             (* F * F *)
+Notation q3 := (pmap (pmap Q2R Q2R) Q2R).                  (* F * F * F *)
+Notation qLL := (pmap (map Q2R) (map Q2R)).                (* list F * list F *)
+Notation qLLL := (pmap (pmap (map Q2R) (map Q2R)) (map Q2R)).
+Notation qTrain := (pmap (pmap (map Q2R) Q2R) Q2R).        (* train *)
+Notation qIv := (option_map (pmap Q2R Q2R)).               (* option (F * F) *)
+Notation qCtx := (option_map (ctxmap Q2R)).                (* option ctx *)
+
+Lemma list_nat_R_refl (l : list nat) : list_R nat nat nat_R l l.
+Proof. induction l; constructor; [apply nat_R_refl | assumption]. Qed.
+Lemma list_bool_R_refl (l : list bool) : list_R bool bool bool_R l l.
+Proof. induction l; constructor; [apply bool_R_refl | assumption]. Qed.
+Lemma idx_R_refl (i : option (list nat)) : option_R _ _ (list_R nat nat nat_R) i i.
+Proof. destruct i; constructor; apply list_nat_R_refl. Qed.
+
+(* side conditions of an instantiated [f_R]: related arguments *)
+Ltac rel_arg :=
+  first [ exact QR_ops
+        | apply bool_R_refl
+        | apply nat_R_refl
+        | apply idx_R_refl
+        | apply list_nat_R_refl
+        | apply list_bool_R_refl
+        | apply (f2r (f := Q2R))
+        | eapply f2r ].
+
+(* [transfer_by f_R]: goal  mapT (f QOps args) = f ROps (mapT' args) *)
+Ltac transfer_by HR :=
+  intros;
+  eapply transfer; [ typeclasses eauto | ];
+  eapply HR; rel_arg.
+(* results without numbers (nat, bool) *)
+Ltac transfer_id_by HR :=
+  intros; first [ apply nat_R_eq | apply bool_R_eq ]; eapply HR; rel_arg.
+
+
+Parametricity Recursive isi_ratio.
+Theorem isi_ratio_transfer m a b :
+  Q2R (isi_ratio QOps m a b) = isi_ratio ROps (Q2R m) (Q2R a) (Q2R b).
+Proof. transfer_by isi_ratio_R. Qed.
+
+Parametricity Recursive isi_profile_py.
+Theorem isi_profile_py_transfer s1 s2 ts te m :
+  qLL (isi_profile_py QOps s1 s2 ts te m)
+  = isi_profile_py ROps (qL s1) (qL s2) (Q2R ts) (Q2R te) (Q2R m).
+Proof. transfer_by isi_profile_py_R. Qed.
+
+(* Fixpoints whose body mentions the structural argument again make Paramcoq
+   ask for the unfolding equation  body = fix ; in this installation the
+   obligation is not presented interactively, it must be solved by the
+   registered tactic: destruct the structural argument, then reflexivity. *)
+Ltac destruct_reflexivity :=
+  intros;
+  repeat match goal with
+         | [ x : _ |- _ = _ ] => destruct x; reflexivity; fail
+         end.
+Global Parametricity Tactic := destruct_reflexivity.
+
+(* wrappers: the generic scans instantiated with the two window functions *)
+Definition sync_kernel {F} (o : NumOps F) := coincidence_profile_gen o (get_tau o).
+Definition sync_kernel_cy {F} (o : NumOps F) := coincidence_profile_gen o (get_tau_cy o).
+Definition order_kernel {F} (o : NumOps F) := order_profile_gen o (get_tau o).
+Definition order_kernel_cy {F} (o : NumOps F) := order_profile_gen o (get_tau_cy o).
+Definition dir_kernel {F} (o : NumOps F) := directionality_profile_gen o (get_tau o).
+Definition dir_kernel_cy {F} (o : NumOps F) := directionality_profile_gen o (get_tau_cy o).
+Definition single_kernel {F} (o : NumOps F) := coincidence_single_gen o (get_tau o).
+Definition single_kernel_cy {F} (o : NumOps F) := coincidence_single_gen o (get_tau_cy o).
+Definition coinc_value_kernel {F} (o : NumOps F) := coincidence_value_gen o (get_tau o).
+Definition coinc_value_kernel_cy {F} (o : NumOps F) := coincidence_value_gen o (get_tau_cy o).
+Definition order_value_kernel {F} (o : NumOps F) (s1 s2 : list F) (ts te mt mrts : F) : F * F :=
+  order_value o (coinc_scan o (tau_fn o (get_tau o) ts te mt mrts) s1 s2) (n0 o) (n0 o).
+Definition order_value_kernel_cy {F} (o : NumOps F) (s1 s2 : list F) (ts te mt mrts : F) : F * F :=
+  order_value o (coinc_scan o (tau_fn o (get_tau_cy o) ts te mt mrts) s1 s2) (n0 o) (n0 o).
+Definition dir_value_kernel {F} (o : NumOps F) (s1 s2 : list F) (ts te mt mrts : F) : F :=
+  dir_value o (coinc_scan o (tau_fn o (get_tau o) ts te mt mrts) s1 s2) (n0 o).
+Definition dir_value_kernel_cy {F} (o : NumOps F) (s1 s2 : list F) (ts te mt mrts : F) : F :=
+  dir_value o (coinc_scan o (tau_fn o (get_tau_cy o) ts te mt mrts) s1 s2) (n0 o).
+
+(* kernels *)
+
+Parametricity Recursive isi_profile_cy.
+Theorem isi_profile_cy_transfer s1 s2 ts te m :
+  qLL (isi_profile_cy QOps s1 s2 ts te m)
+  = isi_profile_cy ROps (qL s1) (qL s2) (Q2R ts) (Q2R te) (Q2R m).
+Proof. transfer_by isi_profile_cy_R. Qed.
+
+Parametricity Recursive isi_distance_cy.
+Theorem isi_distance_cy_transfer s1 s2 ts te m :
+  Q2R (isi_distance_cy QOps s1 s2 ts te m)
+  = isi_distance_cy ROps (qL s1) (qL s2) (Q2R ts) (Q2R te) (Q2R m).
+Proof. transfer_by isi_distance_cy_R. Qed.
+
+Parametricity Recursive get_min_dist.
+Theorem get_min_dist_transfer x l a0 a1 :
+  Q2R (get_min_dist QOps x l a0 a1)
+  = get_min_dist ROps (Q2R x) (qL l) (Q2R a0) (Q2R a1).
+Proof. transfer_by get_min_dist_R. Qed.
+
+Parametricity Recursive dist_at_t.
+Theorem dist_at_t_transfer isi1 isi2 s1 s2 m ri :
+  Q2R (dist_at_t QOps isi1 isi2 s1 s2 m ri)
+  = dist_at_t ROps (Q2R isi1) (Q2R isi2) (Q2R s1) (Q2R s2) (Q2R m) ri.
+Proof. transfer_by dist_at_t_R. Qed.
+
+Parametricity Recursive spike_profile_py.
+Theorem spike_profile_py_transfer t1 t2 ts te m ri :
+  qLLL (spike_profile_py QOps t1 t2 ts te m ri)
+  = spike_profile_py ROps (qL t1) (qL t2) (Q2R ts) (Q2R te) (Q2R m) ri.
+Proof. transfer_by spike_profile_py_R. Qed.
+
+Parametricity Recursive spike_profile_cy.
+Theorem spike_profile_cy_transfer t1 t2 ts te m ri :
+  qLLL (spike_profile_cy QOps t1 t2 ts te m ri)
+  = spike_profile_cy ROps (qL t1) (qL t2) (Q2R ts) (Q2R te) (Q2R m) ri.
+Proof. transfer_by spike_profile_cy_R. Qed.
+
+Parametricity Recursive spike_distance_cy.
+Theorem spike_distance_cy_transfer t1 t2 ts te m ri :
+  Q2R (spike_distance_cy QOps t1 t2 ts te m ri)
+  = spike_distance_cy ROps (qL t1) (qL t2) (Q2R ts) (Q2R te) (Q2R m) ri.
+Proof. transfer_by spike_distance_cy_R. Qed.
+
+Parametricity Recursive interp.
+Theorem interp_transfer a b t :
+  Q2R (interp QOps a b t)
+  = interp ROps (Q2R a) (Q2R b) (Q2R t).
+Proof. transfer_by interp_R. Qed.
+
+Parametricity Recursive interp_cy.
+Theorem interp_cy_transfer a b t :
+  Q2R (interp_cy QOps a b t)
+  = interp_cy ROps (Q2R a) (Q2R b) (Q2R t).
+Proof. transfer_by interp_cy_R. Qed.
+
+Parametricity Recursive get_tau.
+Theorem get_tau_transfer c1 c2 lim mrts :
+  Q2R (get_tau QOps c1 c2 lim mrts)
+  = get_tau ROps (qCtx c1) (qCtx c2) (Q2R lim) (Q2R mrts).
+Proof. transfer_by get_tau_R. Qed.
+
+Parametricity Recursive get_tau_cy.
+Theorem get_tau_cy_transfer c1 c2 lim mrts :
+  Q2R (get_tau_cy QOps c1 c2 lim mrts)
+  = get_tau_cy ROps (qCtx c1) (qCtx c2) (Q2R lim) (Q2R mrts).
+Proof. transfer_by get_tau_cy_R. Qed.
+
+Parametricity Recursive true_max.
+Theorem true_max_transfer ts te mt :
+  Q2R (true_max QOps ts te mt)
+  = true_max ROps (Q2R ts) (Q2R te) (Q2R mt).
+Proof. transfer_by true_max_R. Qed.
+
+Parametricity Recursive sync_kernel.
+Theorem sync_kernel_transfer s1 s2 ts te mt mrts :
+  (map q3) (sync_kernel QOps s1 s2 ts te mt mrts)
+  = sync_kernel ROps (qL s1) (qL s2) (Q2R ts) (Q2R te) (Q2R mt) (Q2R mrts).
+Proof. transfer_by sync_kernel_R. Qed.
+
+Parametricity Recursive sync_kernel_cy.
+Theorem sync_kernel_cy_transfer s1 s2 ts te mt mrts :
+  (map q3) (sync_kernel_cy QOps s1 s2 ts te mt mrts)
+  = sync_kernel_cy ROps (qL s1) (qL s2) (Q2R ts) (Q2R te) (Q2R mt) (Q2R mrts).
+Proof. transfer_by sync_kernel_cy_R. Qed.
+
+Parametricity Recursive order_kernel.
+Theorem order_kernel_transfer s1 s2 ts te mt mrts :
+  (map q3) (order_kernel QOps s1 s2 ts te mt mrts)
+  = order_kernel ROps (qL s1) (qL s2) (Q2R ts) (Q2R te) (Q2R mt) (Q2R mrts).
+Proof. transfer_by order_kernel_R. Qed.
+
+Parametricity Recursive order_kernel_cy.
+Theorem order_kernel_cy_transfer s1 s2 ts te mt mrts :
+  (map q3) (order_kernel_cy QOps s1 s2 ts te mt mrts)
+  = order_kernel_cy ROps (qL s1) (qL s2) (Q2R ts) (Q2R te) (Q2R mt) (Q2R mrts).
+Proof. transfer_by order_kernel_cy_R. Qed.
+
+Parametricity Recursive dir_kernel.
+Theorem dir_kernel_transfer s1 s2 ts te mt mrts :
+  qLL (dir_kernel QOps s1 s2 ts te mt mrts)
+  = dir_kernel ROps (qL s1) (qL s2) (Q2R ts) (Q2R te) (Q2R mt) (Q2R mrts).
+Proof. transfer_by dir_kernel_R. Qed.
+
+Parametricity Recursive dir_kernel_cy.
+Theorem dir_kernel_cy_transfer s1 s2 ts te mt mrts :
+  qLL (dir_kernel_cy QOps s1 s2 ts te mt mrts)
+  = dir_kernel_cy ROps (qL s1) (qL s2) (Q2R ts) (Q2R te) (Q2R mt) (Q2R mrts).
+Proof. transfer_by dir_kernel_cy_R. Qed.
+
+Parametricity Recursive single_kernel.
+Theorem single_kernel_transfer s1 s2 ts te mt mrts :
+  qL (single_kernel QOps s1 s2 ts te mt mrts)
+  = single_kernel ROps (qL s1) (qL s2) (Q2R ts) (Q2R te) (Q2R mt) (Q2R mrts).
+Proof. transfer_by single_kernel_R. Qed.
+
+Parametricity Recursive single_kernel_cy.
+Theorem single_kernel_cy_transfer s1 s2 ts te mt mrts :
+  qL (single_kernel_cy QOps s1 s2 ts te mt mrts)
+  = single_kernel_cy ROps (qL s1) (qL s2) (Q2R ts) (Q2R te) (Q2R mt) (Q2R mrts).
+Proof. transfer_by single_kernel_cy_R. Qed.
+
+Parametricity Recursive coinc_value_kernel.
+Theorem coinc_value_kernel_transfer s1 s2 ts te mt mrts :
+  q2 (coinc_value_kernel QOps s1 s2 ts te mt mrts)
+  = coinc_value_kernel ROps (qL s1) (qL s2) (Q2R ts) (Q2R te) (Q2R mt) (Q2R mrts).
+Proof. transfer_by coinc_value_kernel_R. Qed.
+
+Parametricity Recursive coinc_value_kernel_cy.
+Theorem coinc_value_kernel_cy_transfer s1 s2 ts te mt mrts :
+  q2 (coinc_value_kernel_cy QOps s1 s2 ts te mt mrts)
+  = coinc_value_kernel_cy ROps (qL s1) (qL s2) (Q2R ts) (Q2R te) (Q2R mt) (Q2R mrts).
+Proof. transfer_by coinc_value_kernel_cy_R. Qed.
+
+Parametricity Recursive order_value_kernel.
+Theorem order_value_kernel_transfer s1 s2 ts te mt mrts :
+  q2 (order_value_kernel QOps s1 s2 ts te mt mrts)
+  = order_value_kernel ROps (qL s1) (qL s2) (Q2R ts) (Q2R te) (Q2R mt) (Q2R mrts).
+Proof. transfer_by order_value_kernel_R. Qed.
+
+Parametricity Recursive order_value_kernel_cy.
+Theorem order_value_kernel_cy_transfer s1 s2 ts te mt mrts :
+  q2 (order_value_kernel_cy QOps s1 s2 ts te mt mrts)
+  = order_value_kernel_cy ROps (qL s1) (qL s2) (Q2R ts) (Q2R te) (Q2R mt) (Q2R mrts).
+Proof. transfer_by order_value_kernel_cy_R. Qed.
+
+Parametricity Recursive dir_value_kernel.
+Theorem dir_value_kernel_transfer s1 s2 ts te mt mrts :
+  Q2R (dir_value_kernel QOps s1 s2 ts te mt mrts)
+  = dir_value_kernel ROps (qL s1) (qL s2) (Q2R ts) (Q2R te) (Q2R mt) (Q2R mrts).
+Proof. transfer_by dir_value_kernel_R. Qed.
+
+Parametricity Recursive dir_value_kernel_cy.
+Theorem dir_value_kernel_cy_transfer s1 s2 ts te mt mrts :
+  Q2R (dir_value_kernel_cy QOps s1 s2 ts te mt mrts)
+  = dir_value_kernel_cy ROps (qL s1) (qL s2) (Q2R ts) (Q2R te) (Q2R mt) (Q2R mrts).
+Proof. transfer_by dir_value_kernel_cy_R. Qed.
+
+(* function classes *)
+
+Parametricity Recursive pwc_add.
+Theorem pwc_add_transfer f g :
+  (rmap qLL) (pwc_add QOps f g)
+  = pwc_add ROps (qLL f) (qLL g).
+Proof. transfer_by pwc_add_R. Qed.
+
+Parametricity Recursive pwc_integral.
+Theorem pwc_integral_transfer f iv :
+  (rmap Q2R) (pwc_integral QOps f iv)
+  = pwc_integral ROps (qLL f) (qIv iv).
+Proof. transfer_by pwc_integral_R. Qed.
+
+Parametricity Recursive pwc_avrg.
+Theorem pwc_avrg_transfer f iv :
+  (rmap Q2R) (pwc_avrg QOps f iv)
+  = pwc_avrg ROps (qLL f) ((ivmap Q2R) iv).
+Proof. transfer_by pwc_avrg_R. Qed.
+
+Parametricity Recursive pwc_call_scalar.
+Theorem pwc_call_scalar_transfer f t :
+  (rmap Q2R) (pwc_call_scalar QOps f t)
+  = pwc_call_scalar ROps (qLL f) (Q2R t).
+Proof. transfer_by pwc_call_scalar_R. Qed.
+
+Parametricity Recursive pwc_call_seq1.
+Theorem pwc_call_seq1_transfer f t :
+  (rmap Q2R) (pwc_call_seq1 QOps f t)
+  = pwc_call_seq1 ROps (qLL f) (Q2R t).
+Proof. transfer_by pwc_call_seq1_R. Qed.
+
+Parametricity Recursive pwc_mul.
+Theorem pwc_mul_transfer f c :
+  qLL (pwc_mul QOps f c)
+  = pwc_mul ROps (qLL f) (Q2R c).
+Proof. transfer_by pwc_mul_R. Qed.
+
+Parametricity Recursive pwc_plottable.
+Theorem pwc_plottable_transfer f :
+  qLL (pwc_plottable f)
+  = pwc_plottable (qLL f).
+Proof. transfer_by pwc_plottable_R. Qed.
+
+Parametricity Recursive pwl_add.
+Theorem pwl_add_transfer f g :
+  (rmap qLLL) (pwl_add QOps f g)
+  = pwl_add ROps (qLLL f) (qLLL g).
+Proof. transfer_by pwl_add_R. Qed.
+
+Parametricity Recursive pwl_integral.
+Theorem pwl_integral_transfer f iv :
+  (rmap Q2R) (pwl_integral QOps f iv)
+  = pwl_integral ROps (qLLL f) (qIv iv).
+Proof. transfer_by pwl_integral_R. Qed.
+
+Parametricity Recursive pwl_avrg.
+Theorem pwl_avrg_transfer f iv :
+  (rmap Q2R) (pwl_avrg QOps f iv)
+  = pwl_avrg ROps (qLLL f) ((ivmap Q2R) iv).
+Proof. transfer_by pwl_avrg_R. Qed.
+
+Parametricity Recursive pwl_call_scalar.
+Theorem pwl_call_scalar_transfer f t :
+  (rmap Q2R) (pwl_call_scalar QOps f t)
+  = pwl_call_scalar ROps (qLLL f) (Q2R t).
+Proof. transfer_by pwl_call_scalar_R. Qed.
+
+Parametricity Recursive pwl_call_seq1.
+Theorem pwl_call_seq1_transfer f t :
+  (rmap Q2R) (pwl_call_seq1 QOps f t)
+  = pwl_call_seq1 ROps (qLLL f) (Q2R t).
+Proof. transfer_by pwl_call_seq1_R. Qed.
+
+Parametricity Recursive pwl_mul.
+Theorem pwl_mul_transfer f c :
+  qLLL (pwl_mul QOps f c)
+  = pwl_mul ROps (qLLL f) (Q2R c).
+Proof. transfer_by pwl_mul_R. Qed.
+
+Parametricity Recursive pwl_plottable.
+Theorem pwl_plottable_transfer f :
+  qLL (pwl_plottable f)
+  = pwl_plottable (qLLL f).
+Proof. transfer_by pwl_plottable_R. Qed.
+
+Parametricity Recursive df_add.
+Theorem df_add_transfer f g :
+  (rmap (map q3)) (df_add QOps f g)
+  = df_add ROps ((map q3) f) ((map q3) g).
+Proof. transfer_by df_add_R. Qed.
+
+Parametricity Recursive df_integral.
+Theorem df_integral_transfer f iv :
+  (rmap q2) (df_integral QOps f iv)
+  = df_integral ROps ((map q3) f) ((ivmap Q2R) iv).
+Proof. transfer_by df_integral_R. Qed.
+
+Parametricity Recursive df_avrg.
+Theorem df_avrg_transfer f iv normalize :
+  (rmap Q2R) (df_avrg QOps f iv normalize)
+  = df_avrg ROps ((map q3) f) ((ivmap Q2R) iv) normalize.
+Proof. transfer_by df_avrg_R. Qed.
+
+Parametricity Recursive df_mul.
+Theorem df_mul_transfer f c :
+  (map q3) (df_mul QOps f c)
+  = df_mul ROps ((map q3) f) (Q2R c).
+Proof. transfer_by df_mul_R. Qed.
+
+Parametricity Recursive df_plottable.
+Theorem df_plottable_transfer f k :
+  qLL (df_plottable QOps f k)
+  = df_plottable ROps ((map q3) f) k.
+Proof. transfer_by df_plottable_R. Qed.
+
+(* API *)
+
+Parametricity Recursive sort_unique.
+Theorem sort_unique_transfer l :
+  qL (sort_unique QOps l)
+  = sort_unique ROps (qL l).
+Proof. transfer_by sort_unique_R. Qed.
+
+Parametricity Recursive sort_list.
+Theorem sort_list_transfer l :
+  qL (sort_list QOps l)
+  = sort_list ROps (qL l).
+Proof. transfer_by sort_list_R. Qed.
+
+Parametricity Recursive reconcile.
+Theorem reconcile_transfer eps l :
+  (map qTrain) (reconcile QOps eps l)
+  = reconcile ROps (Q2R eps) ((map qTrain) l).
+Proof. transfer_by reconcile_R. Qed.
+
+Parametricity Recursive spikes_non_empty.
+Theorem spikes_non_empty_transfer t :
+  qL (spikes_non_empty QOps t)
+  = spikes_non_empty ROps (qTrain t).
+Proof. transfer_by spikes_non_empty_R. Qed.
+
+Parametricity Recursive isi_lengths.
+Theorem isi_lengths_transfer s ts te :
+  qL (isi_lengths QOps s ts te)
+  = isi_lengths ROps (qL s) (Q2R ts) (Q2R te).
+Proof. transfer_by isi_lengths_R. Qed.
+
+Parametricity Recursive default_thresh_sq.
+Theorem default_thresh_sq_transfer l :
+  Q2R (default_thresh_sq QOps l)
+  = default_thresh_sq ROps ((map qTrain) l).
+Proof. transfer_by default_thresh_sq_R. Qed.
+
+Parametricity Recursive isi_profile_bi.
+Theorem isi_profile_bi_transfer eps cy rc m a b :
+  qLL (isi_profile_bi QOps eps cy rc m a b)
+  = isi_profile_bi ROps (Q2R eps) cy rc (Q2R m) (qTrain a) (qTrain b).
+Proof. transfer_by isi_profile_bi_R. Qed.
+
+Parametricity Recursive spike_profile_bi.
+Theorem spike_profile_bi_transfer eps cy rc m ri a b :
+  qLLL (spike_profile_bi QOps eps cy rc m ri a b)
+  = spike_profile_bi ROps (Q2R eps) cy rc (Q2R m) ri (qTrain a) (qTrain b).
+Proof. transfer_by spike_profile_bi_R. Qed.
+
+Parametricity Recursive spike_sync_profile_bi.
+Theorem spike_sync_profile_bi_transfer eps cy rc mt m a b :
+  (map q3) (spike_sync_profile_bi QOps eps cy rc mt m a b)
+  = spike_sync_profile_bi ROps (Q2R eps) cy rc (Q2R mt) (Q2R m) (qTrain a) (qTrain b).
+Proof. transfer_by spike_sync_profile_bi_R. Qed.
+
+Parametricity Recursive order_profile_bi.
+Theorem order_profile_bi_transfer eps cy rc mt m a b :
+  (rmap (map q3)) (order_profile_bi QOps eps cy rc mt m a b)
+  = order_profile_bi ROps (Q2R eps) cy rc (Q2R mt) (Q2R m) (qTrain a) (qTrain b).
+Proof. transfer_by order_profile_bi_R. Qed.
+
+Parametricity Recursive isi_distance_bi.
+Theorem isi_distance_bi_transfer eps cy rc m iv a b :
+  (rmap Q2R) (isi_distance_bi QOps eps cy rc m iv a b)
+  = isi_distance_bi ROps (Q2R eps) cy rc (Q2R m) (qIv iv) (qTrain a) (qTrain b).
+Proof. transfer_by isi_distance_bi_R. Qed.
+
+Parametricity Recursive spike_distance_bi.
+Theorem spike_distance_bi_transfer eps cy rc m ri iv a b :
+  (rmap Q2R) (spike_distance_bi QOps eps cy rc m ri iv a b)
+  = spike_distance_bi ROps (Q2R eps) cy rc (Q2R m) ri (qIv iv) (qTrain a) (qTrain b).
+Proof. transfer_by spike_distance_bi_R. Qed.
+
+Parametricity Recursive spike_sync_values.
+Theorem spike_sync_values_transfer eps cy mt m iv a b :
+  (rmap q2) (spike_sync_values QOps eps cy mt m iv a b)
+  = spike_sync_values ROps (Q2R eps) cy (Q2R mt) (Q2R m) (qIv iv) (qTrain a) (qTrain b).
+Proof. transfer_by spike_sync_values_R. Qed.
+
+Parametricity Recursive spike_sync_bi.
+Theorem spike_sync_bi_transfer eps cy rc mt m iv a b :
+  (rmap Q2R) (spike_sync_bi QOps eps cy rc mt m iv a b)
+  = spike_sync_bi ROps (Q2R eps) cy rc (Q2R mt) (Q2R m) (qIv iv) (qTrain a) (qTrain b).
+Proof. transfer_by spike_sync_bi_R. Qed.
+
+Parametricity Recursive isi_profile_multi.
+Theorem isi_profile_multi_transfer eps cy rc m l idx :
+  (rmap qLL) (isi_profile_multi QOps eps cy rc m l idx)
+  = isi_profile_multi ROps (Q2R eps) cy rc (Q2R m) ((map qTrain) l) idx.
+Proof. transfer_by isi_profile_multi_R. Qed.
+
+Parametricity Recursive spike_profile_multi.
+Theorem spike_profile_multi_transfer eps cy rc m ri l idx :
+  (rmap qLLL) (spike_profile_multi QOps eps cy rc m ri l idx)
+  = spike_profile_multi ROps (Q2R eps) cy rc (Q2R m) ri ((map qTrain) l) idx.
+Proof. transfer_by spike_profile_multi_R. Qed.
+
+Parametricity Recursive spike_sync_profile_multi.
+Theorem spike_sync_profile_multi_transfer eps cy rc mt m l idx :
+  (rmap (map q3)) (spike_sync_profile_multi QOps eps cy rc mt m l idx)
+  = spike_sync_profile_multi ROps (Q2R eps) cy rc (Q2R mt) (Q2R m) ((map qTrain) l) idx.
+Proof. transfer_by spike_sync_profile_multi_R. Qed.
+
+Parametricity Recursive order_profile_multi.
+Theorem order_profile_multi_transfer eps cy rc mt m l idx :
+  (rmap (map q3)) (order_profile_multi QOps eps cy rc mt m l idx)
+  = order_profile_multi ROps (Q2R eps) cy rc (Q2R mt) (Q2R m) ((map qTrain) l) idx.
+Proof. transfer_by order_profile_multi_R. Qed.
+
+Parametricity Recursive isi_distance_multi.
+Theorem isi_distance_multi_transfer eps cy rc m iv l idx :
+  (rmap Q2R) (isi_distance_multi QOps eps cy rc m iv l idx)
+  = isi_distance_multi ROps (Q2R eps) cy rc (Q2R m) (qIv iv) ((map qTrain) l) idx.
+Proof. transfer_by isi_distance_multi_R. Qed.
+
+Parametricity Recursive spike_distance_multi.
+Theorem spike_distance_multi_transfer eps cy rc m ri iv l idx :
+  (rmap Q2R) (spike_distance_multi QOps eps cy rc m ri iv l idx)
+  = spike_distance_multi ROps (Q2R eps) cy rc (Q2R m) ri (qIv iv) ((map qTrain) l) idx.
+Proof. transfer_by spike_distance_multi_R. Qed.
+
+Parametricity Recursive spike_sync_multi.
+Theorem spike_sync_multi_transfer eps cy rc mt m iv l idx :
+  (rmap Q2R) (spike_sync_multi QOps eps cy rc mt m iv l idx)
+  = spike_sync_multi ROps (Q2R eps) cy rc (Q2R mt) (Q2R m) (qIv iv) ((map qTrain) l) idx.
+Proof. transfer_by spike_sync_multi_R. Qed.
+
+Parametricity Recursive isi_distance_matrix.
+Theorem isi_distance_matrix_transfer eps cy rc m iv l idx :
+  (rmap (map qL)) (isi_distance_matrix QOps eps cy rc m iv l idx)
+  = isi_distance_matrix ROps (Q2R eps) cy rc (Q2R m) (qIv iv) ((map qTrain) l) idx.
+Proof. transfer_by isi_distance_matrix_R. Qed.
+
+Parametricity Recursive spike_distance_matrix.
+Theorem spike_distance_matrix_transfer eps cy rc m ri iv l idx :
+  (rmap (map qL)) (spike_distance_matrix QOps eps cy rc m ri iv l idx)
+  = spike_distance_matrix ROps (Q2R eps) cy rc (Q2R m) ri (qIv iv) ((map qTrain) l) idx.
+Proof. transfer_by spike_distance_matrix_R. Qed.
+
+Parametricity Recursive spike_sync_matrix.
+Theorem spike_sync_matrix_transfer eps cy rc mt m iv l idx :
+  (rmap (map qL)) (spike_sync_matrix QOps eps cy rc mt m iv l idx)
+  = spike_sync_matrix ROps (Q2R eps) cy rc (Q2R mt) (Q2R m) (qIv iv) ((map qTrain) l) idx.
+Proof. transfer_by spike_sync_matrix_R. Qed.
+
+Parametricity Recursive filter_by_spike_sync.
+Theorem filter_by_spike_sync_transfer eps cy rc mt m thr l :
+  (map (pmap qTrain qTrain)) (filter_by_spike_sync QOps eps cy rc mt m thr l)
+  = filter_by_spike_sync ROps (Q2R eps) cy rc (Q2R mt) (Q2R m) (Q2R thr) ((map qTrain) l).
+Proof. transfer_by filter_by_spike_sync_R. Qed.
+
+Parametricity Recursive order_impl.
+Theorem order_impl_transfer eps cy mt m a b :
+  (rmap q2) (order_impl QOps eps cy mt m a b)
+  = order_impl ROps (Q2R eps) cy (Q2R mt) (Q2R m) (qTrain a) (qTrain b).
+Proof. transfer_by order_impl_R. Qed.
+
+Parametricity Recursive spike_train_order_bi.
+Theorem spike_train_order_bi_transfer eps cy rc normalize mt m a b :
+  (rmap Q2R) (spike_train_order_bi QOps eps cy rc normalize mt m a b)
+  = spike_train_order_bi ROps (Q2R eps) cy rc normalize (Q2R mt) (Q2R m) (qTrain a) (qTrain b).
+Proof. transfer_by spike_train_order_bi_R. Qed.
+
+Parametricity Recursive spike_train_order_multi.
+Theorem spike_train_order_multi_transfer eps cy rc normalize mt m l idx :
+  (rmap Q2R) (spike_train_order_multi QOps eps cy rc normalize mt m l idx)
+  = spike_train_order_multi ROps (Q2R eps) cy rc normalize (Q2R mt) (Q2R m) ((map qTrain) l) idx.
+Proof. transfer_by spike_train_order_multi_R. Qed.
+
+Parametricity Recursive directionality_values.
+Theorem directionality_values_transfer eps cy rc mt m l idx :
+  (rmap (map qL)) (directionality_values QOps eps cy rc mt m l idx)
+  = directionality_values ROps (Q2R eps) cy rc (Q2R mt) (Q2R m) ((map qTrain) l) idx.
+Proof. transfer_by directionality_values_R. Qed.
+
+Parametricity Recursive spike_directionality.
+Theorem spike_directionality_transfer eps cy rc normalize mt m a b :
+  (rmap Q2R) (spike_directionality QOps eps cy rc normalize mt m a b)
+  = spike_directionality ROps (Q2R eps) cy rc normalize (Q2R mt) (Q2R m) (qTrain a) (qTrain b).
+Proof. transfer_by spike_directionality_R. Qed.
+
+Parametricity Recursive spike_directionality_matrix.
+Theorem spike_directionality_matrix_transfer eps cy rc normalize mt m l idx :
+  (rmap (map qL)) (spike_directionality_matrix QOps eps cy rc normalize mt m l idx)
+  = spike_directionality_matrix ROps (Q2R eps) cy rc normalize (Q2R mt) (Q2R m) ((map qTrain) l) idx.
+Proof. transfer_by spike_directionality_matrix_R. Qed.
+
+Parametricity Recursive merge_spike_trains.
+Theorem merge_spike_trains_transfer l :
+  qTrain (merge_spike_trains QOps l)
+  = merge_spike_trains ROps ((map qTrain) l).
+Proof. transfer_by merge_spike_trains_R. Qed.
+
+Parametricity Recursive time_series_row.
+Theorem time_series_row_transfer start bin row :
+  qTrain (time_series_row QOps start bin row)
+  = time_series_row ROps (Q2R start) (Q2R bin) row.
+Proof. transfer_by time_series_row_R. Qed.
+
+Parametricity Recursive hist_counts.
+Theorem hist_counts_transfer edges xs :
+  qL (hist_counts QOps edges xs)
+  = hist_counts ROps (qL edges) (qL xs).
+Proof. transfer_by hist_counts_R. Qed.
+
+(* specifications (Spec.v) *)
+
+Parametricity Recursive isi_len_at.
+Theorem isi_len_at_transfer ts te u t :
+  Q2R (isi_len_at QOps ts te u t)
+  = isi_len_at ROps (Q2R ts) (Q2R te) (qL u) (Q2R t).
+Proof. transfer_by isi_len_at_R. Qed.
+
+Parametricity Recursive isi_spec.
+Theorem isi_spec_transfer s1 s2 ts te m :
+  qLL (isi_spec QOps s1 s2 ts te m)
+  = isi_spec ROps (qL s1) (qL s2) (Q2R ts) (Q2R te) (Q2R m).
+Proof. transfer_by isi_spec_R. Qed.
+
+Parametricity Recursive spike_spec.
+Theorem spike_spec_transfer s1 s2 ts te m ri :
+  qLLL (spike_spec QOps s1 s2 ts te m ri)
+  = spike_spec ROps (qL s1) (qL s2) (Q2R ts) (Q2R te) (Q2R m) ri.
+Proof. transfer_by spike_spec_R. Qed.
+
+Parametricity Recursive lim_of.
+Theorem lim_of_transfer ts te mt :
+  Q2R (lim_of QOps ts te mt)
+  = lim_of ROps (Q2R ts) (Q2R te) (Q2R mt).
+Proof. transfer_by lim_of_R. Qed.
+
+Parametricity Recursive sync_spec.
+Theorem sync_spec_transfer s1 s2 ts te mt mrts :
+  (map q3) (sync_spec QOps s1 s2 ts te mt mrts)
+  = sync_spec ROps (qL s1) (qL s2) (Q2R ts) (Q2R te) (Q2R mt) (Q2R mrts).
+Proof. transfer_by sync_spec_R. Qed.
+
+Parametricity Recursive single_spec.
+Theorem single_spec_transfer s1 s2 ts te mt mrts :
+  qL (single_spec QOps s1 s2 ts te mt mrts)
+  = single_spec ROps (qL s1) (qL s2) (Q2R ts) (Q2R te) (Q2R mt) (Q2R mrts).
+Proof. transfer_by single_spec_R. Qed.
+
+Parametricity Recursive order_spec.
+Theorem order_spec_transfer s1 s2 ts te mt mrts :
+  (map q3) (order_spec QOps s1 s2 ts te mt mrts)
+  = order_spec ROps (qL s1) (qL s2) (Q2R ts) (Q2R te) (Q2R mt) (Q2R mrts).
+Proof. transfer_by order_spec_R. Qed.
+
+Parametricity Recursive dir_spec.
+Theorem dir_spec_transfer s1 s2 ts te mt mrts :
+  qLL (dir_spec QOps s1 s2 ts te mt mrts)
+  = dir_spec ROps (qL s1) (qL s2) (Q2R ts) (Q2R te) (Q2R mt) (Q2R mrts).
+Proof. transfer_by dir_spec_R. Qed.
+
+Parametricity Recursive filter_spec.
+Theorem filter_spec_transfer mt mrts thr l :
+  (map qLL) (filter_spec QOps mt mrts thr l)
+  = filter_spec ROps (Q2R mt) (Q2R mrts) (Q2R thr) ((map qTrain) l).
+Proof. transfer_by filter_spec_R. Qed.
+
+Parametricity Recursive pwc_overlap.
+Theorem pwc_overlap_transfer xs ys a b :
+  Q2R (pwc_overlap QOps xs ys a b)
+  = pwc_overlap ROps (qL xs) (qL ys) (Q2R a) (Q2R b).
+Proof. transfer_by pwc_overlap_R. Qed.
+
+Parametricity Recursive pwl_overlap.
+Theorem pwl_overlap_transfer xs y1 y2 a b :
+  Q2R (pwl_overlap QOps xs y1 y2 a b)
+  = pwl_overlap ROps (qL xs) (qL y1) (qL y2) (Q2R a) (Q2R b).
+Proof. transfer_by pwl_overlap_R. Qed.
+
+Parametricity Recursive pwc_eval.
+Theorem pwc_eval_transfer f t :
+  (option_map Q2R) (pwc_eval QOps f t)
+  = pwc_eval ROps (qLL f) (Q2R t).
+Proof. transfer_by pwc_eval_R. Qed.
+
+Parametricity Recursive pwl_eval.
+Theorem pwl_eval_transfer f t :
+  (option_map Q2R) (pwl_eval QOps f t)
+  = pwl_eval ROps (qLLL f) (Q2R t).
+Proof. transfer_by pwl_eval_R. Qed.
+
+Parametricity Recursive pwc_add_spec.
+Theorem pwc_add_spec_transfer f g :
+  qLL (pwc_add_spec QOps f g)
+  = pwc_add_spec ROps (qLL f) (qLL g).
+Proof. transfer_by pwc_add_spec_R. Qed.
+
+Parametricity Recursive pwl_add_spec.
+Theorem pwl_add_spec_transfer f g :
+  qLLL (pwl_add_spec QOps f g)
+  = pwl_add_spec ROps (qLLL f) (qLLL g).
+Proof. transfer_by pwl_add_spec_R. Qed.
+
+Parametricity Recursive df_add_spec.
+Theorem df_add_spec_transfer f g :
+  (map q3) (df_add_spec QOps f g)
+  = df_add_spec ROps ((map q3) f) ((map q3) g).
+Proof. transfer_by df_add_spec_R. Qed.
+
+Parametricity Recursive df_integral_spec.
+Theorem df_integral_spec_transfer f iv :
+  q2 (df_integral_spec QOps f iv)
+  = df_integral_spec ROps ((map q3) f) ((ivmap Q2R) iv).
+Proof. transfer_by df_integral_spec_R. Qed.
+
+Parametricity Recursive reconcile_spec.
+Theorem reconcile_spec_transfer eps l :
+  (map qTrain) (reconcile_spec QOps eps l)
+  = reconcile_spec ROps (Q2R eps) ((map qTrain) l).
+Proof. transfer_by reconcile_spec_R. Qed.
+
+Parametricity Recursive isi_lengths_spec.
+Theorem isi_lengths_spec_transfer s ts te :
+  qL (isi_lengths_spec QOps s ts te)
+  = isi_lengths_spec ROps (qL s) (Q2R ts) (Q2R te).
+Proof. transfer_by isi_lengths_spec_R. Qed.
+
+Parametricity Recursive count_in.
+Theorem count_in_transfer lo hi closed xs :
+  count_in QOps lo hi closed xs
+  = count_in ROps (Q2R lo) (Q2R hi) closed (qL xs).
+Proof. transfer_id_by count_in_R. Qed.
+
+(* auxiliary definitions of Spec.v *)
+
+Parametricity Recursive eff.
+Theorem eff_transfer ts te s :
+  qL (eff ts te s)
+  = eff (Q2R ts) (Q2R te) (qL s).
+Proof. transfer_by eff_R. Qed.
+
+Parametricity Recursive breaks.
+Theorem breaks_transfer ts te s1 s2 :
+  qL (breaks QOps ts te s1 s2)
+  = breaks ROps (Q2R ts) (Q2R te) (qL s1) (qL s2).
+Proof. transfer_by breaks_R. Qed.
+
+Parametricity Recursive mid.
+Theorem mid_transfer p :
+  Q2R (mid QOps p)
+  = mid ROps (q2 p).
+Proof. transfer_by mid_R. Qed.
+
+Parametricity Recursive nearest.
+Theorem nearest_transfer aux w x :
+  Q2R (nearest QOps aux w x)
+  = nearest ROps (q2 aux) (qL w) (Q2R x).
+Proof. transfer_by nearest_R. Qed.
+
+Parametricity Recursive contrib.
+Theorem contrib_transfer ts te u w tm t :
+  q2 (contrib QOps ts te u w tm t)
+  = contrib ROps (Q2R ts) (Q2R te) (qL u) (qL w) (Q2R tm) (Q2R t).
+Proof. transfer_by contrib_R. Qed.
+
+Parametricity Recursive spike_at.
+Theorem spike_at_transfer ts te m ri u1 u2 tm t :
+  Q2R (spike_at QOps ts te m ri u1 u2 tm t)
+  = spike_at ROps (Q2R ts) (Q2R te) (Q2R m) ri (qL u1) (qL u2) (Q2R tm) (Q2R t).
+Proof. transfer_by spike_at_R. Qed.
+
+Parametricity Recursive tau_spec.
+Theorem tau_spec_transfer lim mrts c1 c2 :
+  Q2R (tau_spec QOps lim mrts c1 c2)
+  = tau_spec ROps (Q2R lim) (Q2R mrts) ((ctxmap Q2R) c1) ((ctxmap Q2R) c2).
+Proof. transfer_by tau_spec_R. Qed.
+
+Parametricity Recursive coinc.
+Theorem coinc_transfer lim mrts c1 c2 :
+  coinc QOps lim mrts c1 c2
+  = coinc ROps (Q2R lim) (Q2R mrts) ((ctxmap Q2R) c1) ((ctxmap Q2R) c2).
+Proof. transfer_id_by coinc_R. Qed.
+
+Parametricity Recursive pwc_at.
+Theorem pwc_at_transfer xs ys tm :
+  (option_map Q2R) (pwc_at QOps xs ys tm)
+  = pwc_at ROps (qL xs) (qL ys) (Q2R tm).
+Proof. transfer_by pwc_at_R. Qed.
+
+(* [pairs_of], [check_indices], [indices_or_all] contain no numbers: they are
+   not polymorphic, both instances run literally the same function. *)
+
+(* the [res]-valued transfers in "match" form, e.g. *)
+Corollary pwc_add_transfer_match f g :
+  match pwc_add QOps f g, pwc_add ROps (qLL f) (qLL g) with
+  | Ok a, Ok b => qLL a = b
+  | Err e, Err e' => e = e'
+  | _, _ => False
+  end.
+Proof. apply rmap_match, pwc_add_transfer. Qed.
+
+(* ------------------------------------------------------------------ *)
+(* 4. Assumptions                                                       *)
+
+Print Assumptions QR_ops.
+Print Assumptions isi_profile_py_transfer.
+Print Assumptions spike_profile_py_transfer.
+Print Assumptions sync_kernel_transfer.
+Print Assumptions isi_profile_multi_transfer.
